@@ -72,8 +72,11 @@ func runesArg(rs []rune) string {
 func genString(rng *rand.Rand, maxLen int) ([]rune, string) {
 	class := "mixed"
 	n := rng.Intn(maxLen + 1)
-	mode := rng.Intn(6)
+	mode := rng.Intn(7)
 	switch mode {
+	case 6:
+		// Western European text: every code unit below 0x100, some above 0x7f
+		class = "latin1"
 	case 0:
 		class = "empty"
 		n = 0
@@ -99,6 +102,11 @@ func genString(rng *rand.Rand, maxLen int) ([]rune, string) {
 			r = rune(0x10000 + rng.Intn(0x100000))
 		case 4:
 			r = pick(rng, boundary)
+		case 6:
+			r = rune(1 + rng.Intn(255))
+			if len(rs) == 0 {
+				r = rune(0x80 + rng.Intn(128))
+			}
 		default:
 			switch rng.Intn(3) {
 			case 0:
